@@ -142,6 +142,27 @@ def parse_vspec(path):
                 # (comments between the tokens count as whitespace)
                 rx = "(?:\\s|//[^\\n]*\\n)*".join(re.escape(tok) for tok in pat.split(" "))
                 cur_item.rewrites.append((m.group(1), int(wantws), re.compile(rx), m.group(4).replace('\\"', '"'), ln))
+            elif key == "rewrite_re":
+                # like @@rewrite, but <old> is a Python regular expression and <new> may refer to its
+                # groups (\\1 ...): for rewrites that replace an unsupported ADAPTER whatever its
+                # arguments are (the arguments stay the repository's text)
+                m = re.match(r'(\S+)\s+(\d+\??|\*)\s+"(.*)"\s+=>\s+"(.*)"\s*$', rest)
+                if not m:
+                    raise SystemExit("%s:%d: bad @@rewrite_re" % (path, ln))
+                wantre = m.group(2)
+                if wantre == "*":
+                    # any number of times, also none: only for R30 (a std adapter Verus has no model of ->
+                    # an opaque stand-in about which nothing is known but a bound; the pinned tree has none)
+                    if m.group(1) != "R30":
+                        raise SystemExit("%s:%d: count * only allowed for R30 here" % (path, ln))
+                    wantre = 10 ** 9
+                elif wantre.endswith("?"):
+                    # "N?": one of several spellings of the same field value (R3: a function item or
+                    # an equivalent closure as the value of a fn(char) -> bool field)
+                    if m.group(1) != "R3":
+                        raise SystemExit("%s:%d: optional count only allowed for R3 here" % (path, ln))
+                    wantre = -int(wantre[:-1])
+                cur_item.rewrites.append((m.group(1), int(wantre), re.compile(m.group(3).replace('\\"', '"')), ("re", m.group(4).replace('\\"', '"')), ln))
             elif key == "rewrite":
                 m = re.match(r'(\S+)\s+(\d+\??|\*)\s+"(.*)"\s+=>\s+"(.*)"\s*$', rest)
                 if not m:
@@ -161,7 +182,7 @@ def parse_vspec(path):
                     # ... and for R29 (a dependency call -> helper with the dependency's assumed contract):
                     # when the call is gone there is nothing to replace and the body is verified as it stands
                     # ... and for R28 (two spellings of the same std adapter chain, of which one is present)
-                    if m.group(1) not in ("R5", "R28", "R29"):
+                    if m.group(1) not in ("R5", "R28", "R29", "Rclosure"):
                         raise SystemExit("%s:%d: optional count only allowed for R5 / R28 / R29" % (path, ln))
                     want = -int(want[:-1])
                 # `<NL>` stands for a line break (a rewrite may span lines; it must keep their number)
@@ -471,7 +492,10 @@ def emit_item(spec, repo, out, stats, vspec_path, cache):
                 hits = list(old.finditer(p[1]))
                 if hits:
                     total += len(hits)
-                    pieces[i] = ("src", old.sub(lambda mm: new + "\n" * mm.group(0).count("\n"), p[1]), p[2])
+                    if isinstance(new, tuple):   # @@rewrite_re: group references are expanded
+                        pieces[i] = ("src", old.sub(lambda mm: mm.expand(new[1]) + "\n" * (mm.group(0).count("\n") - mm.expand(new[1]).count("\n")), p[1]), p[2])
+                    else:
+                        pieces[i] = ("src", old.sub(lambda mm: new + "\n" * mm.group(0).count("\n"), p[1]), p[2])
                 continue
             if p[0] == "src":
                 c = p[1].count(old)
